@@ -11,8 +11,8 @@ trap 'git -C /repo worktree remove --force '$wt'; git -C /repo worktree prune' E
 cd $wt
 git apply --check "$sd/patch.diff"
 mkdir -p "$dest"; cp "$sd/$demo" "$dest/"
-if go1.26.8 test -count=1 -run "$pat" "$pkg" >/tmp/vseed-$$.log 2>&1; then echo "WITHOUT patch: demo PASS"; else echo "WITHOUT patch: demo FAIL (unexpected)"; tail -20 /tmp/vseed-$$.log; fi
+if go1.26.8 test -count=1 $SEEDTAGS -run "$pat" "$pkg" >/tmp/vseed-$$.log 2>&1; then echo "WITHOUT patch: demo PASS"; else echo "WITHOUT patch: demo FAIL (unexpected)"; tail -20 /tmp/vseed-$$.log; fi
 git apply "$sd/patch.diff"
 go1.26.8 build ./... && echo "WITH patch: build ok"
-if go1.26.8 test -count=1 -run "$pat" "$pkg" >/tmp/vseed-$$.log 2>&1; then echo "WITH patch: demo PASS (unexpected)"; else echo "WITH patch: demo FAIL"; grep -a "FAIL\|Error\|want" /tmp/vseed-$$.log | head -6; fi
+if go1.26.8 test -count=1 $SEEDTAGS -run "$pat" "$pkg" >/tmp/vseed-$$.log 2>&1; then echo "WITH patch: demo PASS (unexpected)"; else echo "WITH patch: demo FAIL"; grep -a "FAIL\|Error\|want" /tmp/vseed-$$.log | head -6; fi
 rm -f /tmp/vseed-$$.log
